@@ -9,7 +9,7 @@ from ..valgen import Gen
 from ..terms import valida
 
 PROP = "C20"
-IMPORTS = "Py Check Html RunHtml"
+IMPORTS = "Py Check Html RunHtml Tree"
 THEOREMS = ["C20_html_balanced", "C20_escape_clean", "C20_html_escaped", "C20_code_clean"]
 FACT_LEMMAS = []
 DEPENDS = ["Html.v", "RunHtml.v", "Proofs/C20Proof.v", "Properties/C20.v", "Py.v", "Check.v"]
@@ -118,6 +118,70 @@ def gen_schema(g):
     return v.Schema(rules), info
 
 
+# ---- the tree assembly (Tree.v): facts about each rule from the library's own helpers, assembly by the model ----
+def rule_facts(rule, n_from, tags):
+    v = valida()
+    parts = rule.path.parts
+    path_str = [str(i) for i in parts]
+    simple = list(rule.path.simplify())
+    keys = []
+    for kc in rule.condition.get_always_applicable_key_conditions():
+        for key in kc.callable.args:
+            try:
+                kstr = "(Some " + E.enc_str(str(v.DataPath(key).parts[0])) + ")"
+            except TypeError:
+                kstr = "None"
+            keys.append(f"({E.enc_val(key, tags)}, {kstr}, {E.enc_bool(kc.callable.name == 'required_keys')})")
+    tc = rule.condition.get_always_applicable_type_like_conditions()
+    fmt = v.schema.format_map_key_value_data_type_conditions
+
+    def typ(lst):
+        if not lst:
+            return "None"
+        return f"(Some ({E.enc_val(lst, tags)}, {E.enc_val(fmt(lst), tags)}))"
+    imp = rule.path.resolve_implicit_types()
+    lookup = {v.datapath.Container.MAP: "dict", v.datapath.Container.LIST: "list"}
+    if not imp:
+        rimp = "None"
+    elif imp[-1] in lookup:
+        rimp = f"(Some (Some {E.enc_str(lookup[imp[-1]])}))"
+    else:
+        rimp = "(Some None)"
+    last_list = bool(parts) and parts[-1] == v.datapath.ListValue()
+    last_map = bool(parts) and parts[-1] == v.datapath.MapValue()
+    return ("{| rf_path_str := [" + "; ".join(E.enc_str(x) for x in path_str) + "]; rf_path_simple := ["
+            + "; ".join(E.enc_val(x, tags) for x in simple) + f"]; rf_cond := {E.enc_val(rule.condition, tags)}; "
+            f"rf_doc := {E.enc_val(rule.doc, tags)}; rf_keys := [" + "; ".join(keys) + f"]; rf_key_type := {typ(tc['key_data_type'])}; "
+            f"rf_type := {typ(tc['value_data_type'])}; rf_imp := {rimp}; rf_last_list := {E.enc_bool(last_list)}; "
+            f"rf_last_map := {E.enc_bool(last_map)} |}}")
+
+
+def canon_tree(x):
+    """Tree items with their fields in sorted order (dict order carries no meaning here)."""
+    if isinstance(x, list):
+        return [canon_tree(i) for i in x]
+    if isinstance(x, dict) and all(isinstance(k, str) for k in x) and ("path_str" in x or "parent" in x):
+        return {k: (canon_tree(x[k]) if k == "children" else x[k]) for k in sorted(x)}
+    return x
+
+
+def tree_case(schema, nested, from_path, descr):
+    v = valida()
+    tags = E.ObjTags()
+    out = E.run_outcome(lambda: canon_tree(schema.to_tree(nested=nested, from_path=from_path)))
+    try:
+        facts = "[" + "; ".join(rule_facts(r, 0, tags) for r in schema.rules) + "]"
+        fp = list(from_path or [])
+        from_str = "[" + "; ".join(E.enc_str(str(i)) for i in fp) + "]"
+        from_simple = "[" + "; ".join(E.enc_val(i, tags) for i in (v.DataPath(*fp).simplify() if fp else ())) + "]"
+        impl = E.enc_res(out, tags)
+    except (E.Unencodable, Exception):
+        return None
+    model = f"(run_tree {from_str} {from_simple} {E.enc_bool(nested)} {facts})"
+    d = dict(descr, kind="tree", nested=nested, from_path=repr(from_path)[:100], impl=out[0] + ":" + repr(out[1])[:200], coq=model[:20000])
+    return Case(d, model, None, impl, out, out[0] == "ok" and len(out[1]) > 1, key=("tree", model[:500], nested))
+
+
 def enc_node(n):
     v = valida()
     MapValue, ListValue = v.datapath.MapValue, v.datapath.ListValue
@@ -210,6 +274,11 @@ def run(tier, seed, model_ok, spec_ok, replay=None):
             continue
         dist["trees"] += 1
         tree_checks(schema, info, flat, nested, viol, d)
+        for nst in (False, True):
+            tc = tree_case(schema, nst, None, d)
+            if tc:
+                cases.append(tc)
+                dist["tree-model"] += 1
         for anchor in (None, g.r.choice(["root", "sec-1", "A_b"])):
             start = g.r.choice([1, 2, 3])
             show = g.r.random() < 0.7
@@ -238,6 +307,10 @@ def run(tier, seed, model_ok, spec_ok, replay=None):
         if schema.rules and g.r.random() < 0.5:
             r = g.r.choice(schema.rules)
             if len(r.path.parts) >= 1:
+                tc = tree_case(schema, g.r.random() < 0.5, list(r.path.simplify()), d)
+                if tc:
+                    cases.append(tc)
+                    dist["tree-model-subtree"] += 1
                 try:
                     sub = schema.to_tree(nested=True, from_path=list(r.path.simplify()))
                     v.schema.write_tree_html(sub)
